@@ -34,3 +34,41 @@ package keeper
 //@   modifies nothing
 //@   ensures result == evmCodeHash[layer(ctx)][bytes(addr)]
 //@   panics never
+
+// ---------------------------------------------------------------------------------------------
+// keeper.go — SetupExecutionContext (called by the ante decorator 991e on the Ethereum lane; C13, C05)
+// ---------------------------------------------------------------------------------------------
+//@ import ethtypes "github.com/ethereum/go-ethereum/core/types"
+//@ import evertypes "github.com/EscanBE/evermint/v12/types"
+
+// keeper.go SetBlockHashForCurrentBlockAndPruneOld: trusted summary of the KV-store code. Past genesis the hash of the current
+// block is recorded once per block (first caller wins), the entry 256 blocks back is pruned when it is written; nothing else.
+//@ ghost var evmBlockHash map[int]map[int]bytes
+//@ ghost var evmHasBlockHash map[int]map[int]bool
+//@ func (k Keeper) SetBlockHashForCurrentBlockAndPruneOld(ctx sdk.Context)
+//@   assumed
+//@   modifies evmBlockHash[layer(ctx)], evmHasBlockHash[layer(ctx)]
+//@   ensures ctx.BlockHeight() == 0 ==> (evmBlockHash[layer(ctx)] == old(evmBlockHash[layer(ctx)]) && evmHasBlockHash[layer(ctx)] == old(evmHasBlockHash[layer(ctx)]))
+//@   ensures ctx.BlockHeight() != 0 ==> (evmHasBlockHash[layer(ctx)][ctx.BlockHeight()] && evmBlockHash[layer(ctx)][ctx.BlockHeight()] == (old(evmHasBlockHash[layer(ctx)][ctx.BlockHeight()]) ? old(evmBlockHash[layer(ctx)][ctx.BlockHeight()]) : bytes(ctx.HeaderHash())))
+//@   ensures forall h int :: (h != ctx.BlockHeight() && h != ctx.BlockHeight() - 256) ==> (evmHasBlockHash[layer(ctx)][h] == old(evmHasBlockHash[layer(ctx)][h]) && evmBlockHash[layer(ctx)][h] == old(evmBlockHash[layer(ctx)][h]))
+//@   panics never
+
+// receiptsDense(l): every Ethereum transaction counted in the current block has a stored (non-empty) receipt — what
+// GetTxReceiptsTransient (block bloom in EndBlock) needs in order not to panic "receipt not found".
+// SetupExecutionContext: the counter goes up by one, and under the NEW index (= old counter) it stores the transaction's whole
+// gas limit as gas used and a placeholder FAILED receipt (status 0, no logs; its cumulative field holds the cumulative LOG count up to and including this index — GetCumulativeLogCountTransient(ctx, false) — not a gas amount: the placeholder only feeds the block bloom) — so a
+// transaction that later dies outside the EVM (block gas exhausted, panic) still counts with its full gas and has a receipt.
+// The returned context differs from ctx only in gas configuration and gas meter (limit = tx gas, nothing consumed): same store
+// layer, same event manager, same header.
+//@ func (k Keeper) SetupExecutionContext(ctx sdk.Context, ethTx *ethtypes.Transaction) (newCtx sdk.Context)
+//@   requires ethTx != nil && txType(ethTx) <= 2 && trCount[layer(ctx)] + 1 < pow2(64)
+//@   modifies trCount[layer(ctx)], trGas[layer(ctx)], trReceipt[layer(ctx)], trHasReceipt[layer(ctx)], evmBlockHash[layer(ctx)], evmHasBlockHash[layer(ctx)]
+//@   ensures[C13.setup_same_layer,C05.setup_same_layer] layer(newCtx) == layer(ctx) && hdr(newCtx) == hdr(ctx) && mode(newCtx) == mode(ctx) && newCtx.EventManager() == ctx.EventManager() && newCtx.BlockGasMeter() == ctx.BlockGasMeter()
+//@   ensures[C05.setup_gas_meter] typeof(newCtx.GasMeter()) == type(*evertypes.infiniteGasMeterWithLimit) && fresh(payload(newCtx.GasMeter())) && asptr(payload(newCtx.GasMeter()), type(*evertypes.infiniteGasMeterWithLimit)).limit == txGas(ethTx) && asptr(payload(newCtx.GasMeter()), type(*evertypes.infiniteGasMeterWithLimit)).consumed == 0
+//@   ensures[C13.setup_counter] trCount[layer(ctx)] == old(trCount[layer(ctx)]) + 1
+//@   ensures[C05.setup_gas_assume_failed,C13.setup_gas_assume_failed] trGas[layer(ctx)] == old(trGas[layer(ctx)])[old(trCount[layer(ctx)]) := txGas(ethTx)]
+//@   ensures[C13.setup_has_receipt] trHasReceipt[layer(ctx)] == old(trHasReceipt[layer(ctx)])[old(trCount[layer(ctx)]) := true]
+//@   ensures[C13.setup_other_receipts_kept] trReceipt[layer(ctx)] == old(trReceipt[layer(ctx)])[old(trCount[layer(ctx)]) := trReceipt[layer(ctx)][old(trCount[layer(ctx)])]]
+//@   ensures[C13.setup_placeholder_receipt] exists bloom ethtypes.Bloom, lb ref, lo int :: trReceipt[layer(ctx)][old(trCount[layer(ctx)])] == rlpReceipt(txType(ethTx), 0, (sumTo(trLogs[layer(ctx)], max(1, trCount[layer(ctx)])) - 0) % pow2(64), bloom, lb, lo, 0)
+//@   ensures[C13.receipts_dense] (forall i int :: (0 <= i && i < old(trCount[layer(ctx)])) ==> old(trHasReceipt[layer(ctx)][i])) ==> (forall i int :: (0 <= i && i < trCount[layer(ctx)]) ==> trHasReceipt[layer(ctx)][i])
+//@   panics never
